@@ -150,10 +150,10 @@ class Prop(PropBase):
                         a2 = {"frac": -c["args"]["frac"]}
                     c["args2"] = a2
                     yield c
-        # one very long record per FFT-based family (thorough tier only: ~1 GB, a minute): float32 intermediates stop counting
+        # one very long record (quick: freq_shift; thorough: also time_shift; ~1 GB, 20 s each): float32 intermediates stop counting
         # samples exactly beyond 2^24, which no short record can show
-        if not quick:
-            for which in ("freq_shift", "time_shift"):
+        if True:
+            for which in (("freq_shift",) if quick else ("freq_shift", "time_shift")):
                 yield {"op": "huge", "which": which, "N": 2**24 + 4096, "sched": "sync", "chunks": [[2**24 + 4096]], "cls": "BasebandSignal"}
         # reader calls: read(..., use_dask=True, chunks=...) of real-sample VDIF, complex DADA and a custom reader against the
         # eager read, for chunk layouts that split the time axis and/or the sample axes
